@@ -40,6 +40,8 @@ STEP_TMPL = {
     "IfExp.test": "1 if (@X@) else 1",
     "IfExp.orelse": "1 if 1 else (@X@)",
     "JoinedStr.values/Formatted.value": "f'{(@X@)}'",
+    "JoinedStr.values/Formatted.value+conversion": "f'{(@X@)!r}'",
+    "JoinedStr.values/Formatted.format_spec": "f'{1:{(@X@)}}'",
     "Lambda.body": "lambda: (@X@)",
     "Lambda.parameters/Parameter.default": "lambda p=(@X@): 1",
     "Lambda.parameters/Parameter.default+posonly": "lambda p=(@X@), /: 1",
